@@ -44,7 +44,7 @@ CLAIMS = {
                 note="Proof level holds for event assembly only. In the kernels the float pipeline (Cholesky/argmin unwraps, partial_cmp, NaN asserts) is a census of undecided sites, and 63 integer/index sites in 19 kernel functions (loop-carried indices, table-shape dependent lookups, values flowing through local collections) are undecided by this analysis: no panic-freedom claim is made for avalanches()/vertex().",
                 technique="abstract interpretation of MIR (guard atoms + interval/Fourier-Motzkin prover) with constructor-census type invariants; per-function obligation census for the kernels; dominating-guard comparison for the centroid"),
     "C10": dict(level="other", design="§5 C10",
-                text="Dataflow-shape rules on try_from_banks: slot index term = position map of the packet's own (board,channel)/(board,chip,channel); name/payload agreement guards; duplicate guards dominate stores; calibration expression (elem - baseline) * gain after skip(delay) with same-kind lookups at the same position; bank-kind action table; TRG timestamp pass-through; call-graph rule on the 11 lazy calibration tables (no table initialiser reads another table, so an element missing from a run's file stays unavailable).",
+                text="Dataflow-shape rules on try_from_banks: slot index term = position map of the packet's own (board,channel)/(board,chip,channel); name/payload agreement guards; duplicate guards dominate stores; calibration expression (elem - baseline) * gain after skip(delay) with same-kind lookups at the same position; bank-kind action table; TRG timestamp pass-through; call-graph rule on the 11 lazy calibration tables (no table initialiser reads another table; MAP_<tag> built from BYTES_<tag>) and on the four element lookups (a missing entry is an error, never a default).",
                 note="Numerical equality of samples follows from the expression shape and IEEE arithmetic (not separately analysed); calibration file contents trusted.",
                 technique="symbolic def-use terms + dominance on the event-assembly function; resolved call graph of the calibration table initialisers"),
     "C11": dict(level="other", design="§5 C11",
